@@ -38,11 +38,14 @@ Print Assumptions C08_rfc_read_lexical_invariance.
 (** Client to wire: what caldav.Client writes for any request a caller can
     express is an RFC 4791 document that the independent reader decodes to
     that request, instants as UTC seconds. *)
+(** [denote path r] is what a call on [path] with the value [r] asks for: [r]
+    itself, except that a CalendarMultiGet without Paths asks for [path]
+    ([denote path r = r] whenever [r] is expressible, C08_denote_expressible). *)
 Theorem C08_client_conformant :
   forall (href_fmt : string -> string) (href_parse : string -> option string) path r,
-    expressible href_fmt href_parse r = true ->
-    rfc_read href_parse (client_body href_fmt path r) = Some (normalise r).
-Proof. exact client_conformant. Qed.
+    expressible href_fmt href_parse (denote path r) = true ->
+    rfc_read href_parse (client_body href_fmt path r) = Some (normalise (denote path r)).
+Proof. exact client_conformant_call. Qed.
 Print Assumptions C08_client_conformant.
 
 (** Wire to backend: every lexical variant of the RFC 4791 document of a
@@ -57,15 +60,42 @@ Theorem C08_server_denotes :
 Proof. exact server_denotes. Qed.
 Print Assumptions C08_server_denotes.
 
+(** comp is optional in calendar-data (RFC 4791 9.6): a request for the whole
+    object (no name, all properties, all components; with or without expand)
+    may also be written without comp; every lexical variant of that document
+    reaches the backend as the same request and is read as it. *)
+Theorem C08_server_denotes_without_comp :
+  forall (href_fmt : string -> string) (href_parse : string -> option string) path r doc,
+    valid href_fmt href_parse r = true -> fits_request r = true -> is_whole (req_cr r) = true ->
+    lexvar (rfc_write_nc href_fmt r) doc ->
+    handle_report href_parse path doc = Ok (backend_call_of path r).
+Proof. exact server_denotes_nc. Qed.
+Print Assumptions C08_server_denotes_without_comp.
+
+Theorem C08_rfc_read_without_comp :
+  forall (href_fmt : string -> string) (href_parse : string -> option string) r doc,
+    valid href_fmt href_parse r = true -> is_whole (req_cr r) = true ->
+    lexvar (rfc_write_nc href_fmt r) doc ->
+    rfc_read href_parse doc = Some r.
+Proof. exact rfc_read_lex_nc. Qed.
+Print Assumptions C08_rfc_read_without_comp.
+
 (** Client to backend: whatever the caller can express, nested below the
     limit, arrives at the backend of the server unchanged, instants as UTC
     seconds.  The premise is about the caller's value, not about XML. *)
 Theorem C08_end_to_end :
   forall (href_fmt : string -> string) (href_parse : string -> option string) path r,
-    expressible href_fmt href_parse r = true -> fits_request r = true ->
-    handle_report href_parse path (client_body href_fmt path r) = Ok (backend_call_of path (normalise r)).
-Proof. exact end_to_end. Qed.
+    expressible href_fmt href_parse (denote path r) = true -> fits_request (denote path r) = true ->
+    handle_report href_parse path (client_body href_fmt path r)
+    = Ok (backend_call_of path (normalise (denote path r))).
+Proof. exact end_to_end_call. Qed.
 Print Assumptions C08_end_to_end.
+
+Theorem C08_denote_expressible :
+  forall (href_fmt : string -> string) (href_parse : string -> option string) path r,
+    expressible href_fmt href_parse r = true -> denote path r = r.
+Proof. exact denote_expressible. Qed.
+Print Assumptions C08_denote_expressible.
 
 (** A request whose comp-filters are nested at most 4997 deep and whose
     component requests at most 4999 deep is below the limit, whatever else it
